@@ -10,7 +10,8 @@ use emmylua_code_analysis::{
 };
 use emmylua_parser::{
     LuaAssignStat, LuaAst, LuaAstNode, LuaAstToken, LuaCallExpr, LuaExpr, LuaGotoStat,
-    LuaLabelStat, LuaNameToken, LuaStringToken, LuaSyntaxNode, LuaSyntaxToken, LuaTableField,
+    LuaLabelStat, LuaNameToken, LuaStringToken, LuaSyntaxKind, LuaSyntaxNode, LuaSyntaxToken,
+    LuaTableField,
 };
 use lsp_types::Location;
 
@@ -48,9 +49,7 @@ pub fn search_references(
         return Some(result);
     }
 
-    if let Some(semantic_decl) =
-        semantic_model.find_decl(token.clone().into(), SemanticDeclLevel::default())
-    {
+    if let Some(semantic_decl) = find_reference_target(semantic_model, &token) {
         match semantic_decl {
             LuaSemanticDeclId::LuaDecl(decl_id) => {
                 let _ = search_decl_references_with_token(
@@ -92,6 +91,27 @@ pub fn search_references(
     // Some(filtered_result)
 
     Some(result)
+}
+
+/// What the token denotes for a reference search. Aliases of functions are followed to the aliased
+/// declaration (`local flush = require("m").flush`), except a local that merely names another
+/// variable (`local g = f`): it has references of its own, which following `f` would drop.
+fn find_reference_target(
+    semantic_model: &SemanticModel,
+    token: &LuaSyntaxToken,
+) -> Option<LuaSemanticDeclId> {
+    if let Some(LuaSemanticDeclId::LuaDecl(decl_id)) =
+        semantic_model.find_decl(token.clone().into(), SemanticDeclLevel::NoTrace)
+        && let Some(decl) = semantic_model.get_db().get_decl_index().get_decl(&decl_id)
+        && decl.is_local()
+        && decl
+            .get_value_syntax_id()
+            .is_some_and(|id| id.get_kind() == LuaSyntaxKind::NameExpr)
+    {
+        return Some(LuaSemanticDeclId::LuaDecl(decl_id));
+    }
+
+    semantic_model.find_decl(token.clone().into(), SemanticDeclLevel::default())
 }
 
 fn search_label_references(
